@@ -88,8 +88,36 @@ theorem skipBracket_safe (c : List Nat) (endO : Nat) (he : endO ≤ c.length) :
       · exact Safe.ok _ (by omega)
     · exact Safe.ok _ (by omega)
 
+/-- the operators `classify` can return are real operators -/
+def OpChar.good : OpChar → Bool
+  | .two y n _ => y != .noOp && n != .noOp
+  | .sign o => o != .noOp
+  | .single o => o != .noOp
+  | _ => true
+
+theorem opTable_good : opTable.all (fun p => p.2.good) = true := by decide
+
+theorem classify_good (ch : Nat) : (classify ch).good = true := by
+  unfold classify
+  cases h : opTable.find? (fun p => p.1 == ch) with
+  | none => rfl
+  | some p =>
+    have hm := List.mem_of_find?_eq_some h
+    have := List.all_eq_true.mp opTable_good p hm
+    simpa using this
+
+theorem classify_ops (ch : Nat) :
+    (∀ y n s, classify ch = .two y n s → y ≠ .noOp ∧ n ≠ .noOp) ∧
+    (∀ o, classify ch = .sign o → o ≠ .noOp) ∧ (∀ o, classify ch = .single o → o ≠ .noOp) := by
+  have h := classify_good ch
+  refine ⟨?_, ?_, ?_⟩
+  · intro y n s hc; rw [hc] at h; simpa [OpChar.good] using h
+  · intro o hc; rw [hc] at h; simpa [OpChar.good] using h
+  · intro o hc; rw [hc] at h; simpa [OpChar.good] using h
+
 theorem getOperation_safe (c : List Nat) (endO : Nat) (he : endO < c.length) :
-    ∀ f off, off ≤ endO → Safe (getOperation c endO f off) (fun r => r.2 ≤ endO) := by
+    ∀ f off, off ≤ endO → Safe (getOperation c endO f off)
+      (fun r => r.2 ≤ endO ∧ (r.1 = .noOp → r.2 = endO)) := by
   intro f
   induction f with
   | zero => intro off _; exact Safe.fuel
@@ -100,30 +128,36 @@ theorem getOperation_safe (c : List Nat) (endO : Nat) (he : endO < c.length) :
     · rename_i hlt
       apply Safe.bind (rd_safe c off (by omega))
       intro ch _
-      cases classify ch with
+      have hcl := classify_ops ch
+      cases hc : classify ch with
       | two yes no second =>
-        exact Safe.bind (rd_safe c (off + 1) (by omega)) (fun nx _ => Safe.ok _ h)
+        have := hcl.1 yes no second hc
+        refine Safe.bind (rd_safe c (off + 1) (by omega)) (fun nx _ => Safe.ok _ ⟨h, ?_⟩)
+        intro hn; simp only [] at hn; split at hn <;> simp_all
       | sign op =>
+        have := hcl.2.1 op hc
         apply Safe.bind (isExpression_safe c off (by omega))
         intro b _
         split
-        · exact Safe.ok _ h
+        · exact Safe.ok _ ⟨h, fun hn => absurd hn this⟩
         · exact ih _ (by omega)
-      | single op => exact Safe.ok _ h
+      | single op =>
+        have := hcl.2.2 op hc
+        exact Safe.ok _ ⟨h, fun hn => absurd hn this⟩
       | paren =>
         apply Safe.bind (skipParen_safe c endO (by omega) _ _ _ (by omega))
         intro o2 ho2
         split
         · exact ih _ (by omega)
-        · exact Safe.ok _ ho2
+        · exact Safe.ok _ ⟨ho2, fun hn => by cases hn⟩
       | bracket =>
         apply Safe.bind (skipBracket_safe c endO (by omega) _ _ hlt)
         intro o2 ho2
         split
         · exact ih _ (by omega)
-        · exact Safe.ok _ (Nat.le_refl _)
+        · exact Safe.ok _ ⟨Nat.le_refl _, fun hn => by cases hn⟩
       | other => exact ih _ (by omega)
-    · exact Safe.ok _ h
+    · exact Safe.ok _ ⟨h, fun _ => by omega⟩
 
 theorem trimLeft_safe (c : List Nat) (endO : Nat) (he : endO ≤ c.length) :
     ∀ f off, Safe (trimLeft c endO f off) (fun _ => True) := by
@@ -224,5 +258,130 @@ out-of-range read, for every content, every range, every number reader. -/
 theorem parseTop_safe (cfg : ScanCfg R) (c : List Nat) (off endO : Nat) (he : endO < c.length) :
     Safe (parseTop cfg c off endO) (fun _ => True) :=
   (scan_safe cfg c _).1 off endO he
+
+
+/-! ### what the scanner returns: every variable reference lies inside the content -/
+
+mutual
+def operandVarsOk (n : Nat) : Operand R → Bool
+  | .var v => decide (v.off + v.len < n) && v.idLen == 0
+  | .sub items => itemsVarsOk n items
+  | _ => true
+def itemsVarsOk (n : Nat) : List (Item R) → Bool
+  | [] => true
+  | (x, _) :: rest => operandVarsOk n x && itemsVarsOk n rest
+end
+
+theorem itemsVarsOk_snoc (n : Nat) (x : Operand R) (o : Op) : ∀ (a : List (Item R)),
+    itemsVarsOk n (a ++ [(x, o)]) = (itemsVarsOk n a && operandVarsOk n x) := by
+  intro a
+  induction a with
+  | nil => simp [itemsVarsOk]
+  | cons y rest ih =>
+    obtain ⟨y1, y2⟩ := y
+    simp only [List.cons_append, itemsVarsOk, ih, Bool.and_assoc]
+
+theorem scan_vars (cfg : ScanCfg R) (hcfg : ∀ o, (cfg.loopVar o).1 = 0) (c : List Nat) : ∀ f,
+    (∀ off endO, endO < c.length →
+      Safe (parseExpressions cfg c f off endO) (fun r => itemsVarsOk c.length r = true)) ∧
+    (∀ endO off exprs lastOp, endO < c.length → itemsVarsOk c.length exprs = true →
+      Safe (parseLoop cfg c f endO off exprs lastOp) (fun r => itemsVarsOk c.length r = true)) ∧
+    (∀ exprs oper lastOp off0 end0, end0 < c.length → itemsVarsOk c.length exprs = true →
+      Safe (parseValue cfg c f exprs oper lastOp off0 end0)
+        (fun r => ∀ l, r = some l → itemsVarsOk c.length l = true)) := by
+  intro f
+  induction f with
+  | zero =>
+    refine ⟨?_, ?_, ?_⟩ <;> intros <;> simp only [parseExpressions, parseLoop, parseValue] <;> exact Safe.fuel
+  | succ f ih =>
+    obtain ⟨ihE, ihL, ihV⟩ := ih
+    refine ⟨?_, ?_, ?_⟩
+    · intro off endO he
+      simp only [parseExpressions]
+      exact ihL _ _ _ _ he (by simp [itemsVarsOk])
+    · intro endO off exprs lastOp he hex
+      simp only [parseLoop]
+      split
+      · rename_i hlt
+        apply Safe.bind (getOperation_safe c endO he _ off (by omega))
+        intro r hr
+        obtain ⟨oper, opOff⟩ := r
+        simp only []
+        split
+        · exact Safe.ok _ (by simp [itemsVarsOk])
+        · apply Safe.bind (ihV exprs oper lastOp off opOff (by simp at hr; omega) hex)
+          intro v hv
+          cases v with
+          | none => exact Safe.ok _ (by simp [itemsVarsOk])
+          | some ex => exact ihL _ _ _ _ he (hv ex rfl)
+      · split
+        · exact Safe.ok _ hex
+        · exact Safe.ok _ (by simp [itemsVarsOk])
+    · intro exprs oper lastOp off0 end0 he hex
+      simp only [parseValue]
+      apply Safe.bind (trimLeft_safe c end0 (by omega) _ off0)
+      intro off _
+      apply Safe.bind (trimRight_safe c off end0 (by omega))
+      intro endO hend
+      split
+      · rename_i hlt
+        apply Safe.bind (rd_safe c off (by omega))
+        intro ch _
+        split
+        · apply Safe.bind (ihE (off + 1) (endO - 1) (by omega))
+          intro sub hsub
+          split
+          · split
+            · exact Safe.ok _ (by intro l hl; cases hl)
+            · refine Safe.ok _ ?_
+              intro l hl
+              simp only [Option.some.injEq] at hl
+              subst hl
+              rw [itemsVarsOk_snoc]
+              simp [hex, operandVarsOk, hsub]
+          · split
+            · exact Safe.ok _ (by intro l hl; cases hl)
+            · exact Safe.ok _ (by intro l hl; simp only [Option.some.injEq] at hl; subst hl; exact hsub)
+        · split
+          · split
+            · rename_i hfull
+              have h1 : W1.inLineSuffixLength = 1 := by decide
+              have h5 : W1.variablePrefixLength = 5 := by decide
+              have h6 : W1.variableFullLength = 6 := by decide
+              apply Safe.bind (rd_safe c (endO - W1.inLineSuffixLength) (by omega))
+              intro last _
+              split
+              · refine Safe.ok _ ?_
+                intro l hl
+                simp only [Option.some.injEq] at hl
+                subst hl
+                rw [itemsVarsOk_snoc]
+                have hmod : (endO - W1.inLineSuffixLength - (off + W1.variablePrefixLength)) % 2 ^ variableLengthBits
+                    ≤ endO - W1.inLineSuffixLength - (off + W1.variablePrefixLength) := Nat.mod_le _ _
+                simp only [hex, Bool.true_and, operandVarsOk, Bool.and_eq_true, decide_eq_true_eq, beq_iff_eq]
+                exact ⟨by omega, hcfg _⟩
+              · exact Safe.ok _ (by intro l hl; cases hl)
+            · exact Safe.ok _ (by intro l hl; cases hl)
+          · split
+            · refine Safe.ok _ ?_
+              intro l hl
+              simp only [Option.some.injEq] at hl
+              subst hl
+              rw [itemsVarsOk_snoc]
+              simp [hex, operandVarsOk]
+            · split
+              · refine Safe.ok _ ?_
+                intro l hl
+                simp only [Option.some.injEq] at hl
+                subst hl
+                rw [itemsVarsOk_snoc]
+                simp [hex, operandVarsOk]
+              · exact Safe.ok _ (by intro l hl; cases hl)
+      · exact Safe.ok _ (by intro l hl; cases hl)
+
+theorem parseTop_vars (cfg : ScanCfg R) (hcfg : ∀ o, (cfg.loopVar o).1 = 0) (c : List Nat)
+    (off endO : Nat) (he : endO < c.length) :
+    Safe (parseTop cfg c off endO) (fun r => itemsVarsOk c.length r = true) :=
+  (scan_vars cfg hcfg c _).1 off endO he
 
 end Qentem.Expr
